@@ -795,6 +795,85 @@ def partial_ops(ctx, reach, tr=None):
     ctx.floor('partial operations examined', n, 8)
 
 
+def indexed_runtime_strings(ctx):
+    """Device and peripheral code receives strings made by the program
+    (file names, PLAY strings, ...), possibly empty.  A constant index into
+    such a parameter needs a length test in front of it; IndexError is not
+    one of the exceptions Device.execute maps."""
+    repo = ctx.repo
+    rule = 'C07.runtime-string-indexed-under-length-test'
+    ctx.rule(rule, 'in qvm/machine.py a parameter indexed with a constant '
+             '(p[k]) is tested for len(p) > k first (same `and` chain or a '
+             'dominating test); an empty or short program string otherwise '
+             'raises IndexError, which nothing maps to a trap')
+    m = repo.module('qvm.machine')
+    n = 0
+    for f in repo.all_functions():
+        if f.module is not m:
+            continue
+        params = {a.arg for a in f.node.args.args} - {'self'}
+        cfg = None
+        for x in walk_shallow(f.node):
+            if not (isinstance(x, ast.Subscript) and
+                    isinstance(x.ctx, ast.Load) and
+                    isinstance(x.slice, ast.Constant) and
+                    isinstance(x.slice.value, int) and
+                    not isinstance(x.slice.value, bool) and
+                    x.slice.value >= 0 and isinstance(x.value, ast.Name)
+                    and x.value.id in params):
+                continue
+            n += 1
+            p, k = x.value.id, x.slice.value
+
+            def implies(test):
+                # does `test` (true) imply len(p) > k ?
+                for c in ast.walk(test):
+                    if isinstance(c, ast.Compare) and len(c.ops) == 1 and \
+                            isinstance(c.left, ast.Call) and \
+                            dotted(c.left.func) == 'len' and c.left.args \
+                            and unparse(c.left.args[0]) == p:
+                        b = const(c.comparators[0])
+                        if isinstance(b, int):
+                            if isinstance(c.ops[0], ast.GtE) and b >= k + 1:
+                                return True
+                            if isinstance(c.ops[0], ast.Gt) and b >= k:
+                                return True
+                            if isinstance(c.ops[0], ast.Eq) and b >= k + 1:
+                                return True
+                if k == 0 and isinstance(test, ast.Name) and test.id == p:
+                    return True
+                return False
+            guarded = False
+            for a in ancestors(x):
+                if isinstance(a, ast.BoolOp) and isinstance(a.op, ast.And):
+                    for v in a.values:
+                        if any(x is y for y in ast.walk(v)):
+                            break
+                        if implies(v):
+                            guarded = True
+                if a is f.node:
+                    break
+            if not guarded:
+                if cfg is None:
+                    cfg = build_cfg(f.node, repo_noreturn)
+                st = x
+                while not isinstance(st, ast.stmt):
+                    st = st._parent
+                for cn in (y for y in cfg.nodes if y.ast is st):
+                    for tnode, lab in cfg.conditions(cn):
+                        if lab == 'true' and implies(tnode.ast.test):
+                            guarded = True
+            construct = f'{f.file}:{f.qualname}:{p}[{k}]'
+            ctx.instance(rule, construct, sample={'guarded': guarded})
+            if not guarded:
+                ctx.finding(rule, construct,
+                            f'{f.qualname} reads {p}[{k}] without a test '
+                            f'that len({p}) > {k}: a program string shorter '
+                            f'than {k + 1} character(s) raises IndexError '
+                            f'out of the device call', f.file, x.lineno)
+    ctx.floor('constant-index reads of parameters in qvm/machine.py', n, 1)
+
+
 def run(ctx):
     ctx.clauses = [
         'nothing that can raise Trapped runs outside the try of tick()',
@@ -818,6 +897,7 @@ def run(ctx):
     interrupt_clause(ctx, tick)
     category_mapping(ctx, tick, tr)
     partial_ops(ctx, reach, tr)
+    indexed_runtime_strings(ctx)
     return ('Escape/boundary analysis of the VM: call-graph reachability of '
             'QvmCpu.trap from code outside the try of tick(); explicit raise '
             'classes in the handler and device call trees; well-formedness '
